@@ -262,7 +262,7 @@ def _run_locked(names, jobs, timeout):
             "compile_error": compile_error, "out_tail": out[-6000:], "prepare_log": log}
 
 
-def playback(name, timeout=1800):
+def playback(name, timeout=600):   # a counterexample tape is a bonus: the VIOLATION is reported without one when this times out
     """run one failing harness with concrete playback; return list of {check, tape_hex}"""
     d, _ = prepare()
     cmd = ["cargo", "kani"] + KANI_FLAGS + ["-Z", "concrete-playback", "--concrete-playback=print",
